@@ -5,7 +5,7 @@
     decoder reads m (followed by anything) as p. *)
 From Coq Require Import ZArith List Bool.
 From Hts Require Import Base.Prim Base.WrList Generated Model.Bgzf Model.Writer Model.WriterConc
-  Proofs.Bgzf Proofs.Writer Proofs.WriterConc Proofs.WriterThms.
+  Proofs.Bgzf Proofs.Writer Proofs.WriterConc Proofs.WriterThms Proofs.WrSkel.
 Import ListNotations.
 Open Scope Z_scope.
 
